@@ -30,6 +30,7 @@ func init() {
 			{ID: "C13.R8", Floor: 4, Doc: "every attempt is counted: Query.attempt / Batch.attempt add exactly 1 to the total the retry policies consult, on every path", Run: c13r8},
 			{ID: "C13.R9", Floor: 2, Doc: "the bundled retry policies grant another attempt only while Attempts() <= NumRetries", Run: c13r9},
 			{ID: "C13.R10", Floor: 1, Doc: "all executions of one query (main and speculative) draw hosts from the one NextHost obtained for it", Run: c13r10},
+			{ID: "C13.R13", Floor: 5, Doc: "parseErrorFrame returns every RequestErr* frame in the form (pointer or value) that the module's type switches and assertions test for", Run: c13ErrorFormAgrees},
 			{ID: "C13.R12", Floor: 1, Doc: "every execution run starts reports back: a send on the results channel (or the ctx.Done() case) on every path to every exit", Run: c13r12},
 			{ID: "C13.R11", Floor: 1, Doc: "Batch.IsIdempotent is false as soon as one entry is not idempotent", Run: c13r11},
 		},
